@@ -506,6 +506,23 @@ except ValueError:
     pass
 """, "expect": "add_charge files every quantity under its own column; the binned array counts each cluster in the pixel under its position"}
 
+OWNS_REPLAY = lambda w: {"code": """
+import numpy as np, verif_probes as VP
+VIOLATED, DETAIL = False, 'clusters handed over in arrays that the caller re-uses afterwards keep their own values'
+for history in ('fresh', 'after reset'):
+    det = VP.detector(rows=3, cols=4, pixel_vert_size=2.0, pixel_horz_size=5.0)
+    if history == 'after reset':
+        det.charge.add_charge_array(np.ones((3, 4))); det.charge.empty()
+    n = np.array([7.0, 9.0]); v = np.array([1.0, 5.0]); h = np.array([2.5, 17.5]); z = np.zeros(2)
+    det.charge.add_charge(particle_type='e', particles_per_cluster=n, init_energy=z, init_ver_position=v, init_hor_position=h, init_z_position=z, init_ver_velocity=z, init_hor_velocity=z, init_z_velocity=z)
+    want = np.zeros((3, 4)); want[0, 0] = 7.0; want[2, 3] = 9.0
+    first = det.charge.array.copy()
+    n[:] = 0.0; v[:] = 0.0; h[:] = 0.0                        # the caller re-uses its buffers
+    second = det.charge.array.copy()
+    if not np.array_equal(first, want) or not np.array_equal(second, want):
+        VIOLATED, DETAIL = True, f'{history}: charge after the addition {first.tolist()}, after the caller cleared its own arrays {second.tolist()} (expected {want.tolist()} both times)'; break
+""", "expect": "the cluster table holds copies of the arrays it was built from"}
+
 COLUMNS = {"number": "particles_per_cluster", "init_energy": "init_energy", "energy": "init_energy", "init_pos_ver": "init_ver_position", "init_pos_hor": "init_hor_position",
            "init_pos_z": "init_z_position", "position_ver": "init_ver_position", "position_hor": "init_hor_position", "position_z": "init_z_position",
            "velocity_ver": "init_ver_velocity", "velocity_hor": "init_hor_velocity", "velocity_z": "init_z_velocity"}
@@ -525,6 +542,7 @@ def create_charges_unit(u: Unit):
 
             def frame(ex, f, args, kwargs, fr):
                 made["mapping"] = args[0] if args else kwargs.get("data")
+                made["copy"] = kwargs.get("copy", args[4] if len(args) > 4 else None)
                 return D.df_obj(ex, z3.Int("n_clusters"))
             cfg.lib_overrides["pandas.DataFrame"] = frame
             n = z3.Int("n_clusters")
@@ -550,6 +568,11 @@ def create_charges_unit(u: Unit):
                 d = p.ex.try_dict(made.get("mapping")) if made.get("mapping") is not None else None
                 got = {k.v: v for k, v in d} if d is not None else {}
                 ok = set(got) == set(COLUMNS) | {"charge"} and all(isinstance(got[c], VRef) and got[c].addr == p.ex.cols[a].addr for c, a in COLUMNS.items())
+                # pandas.DataFrame(mapping of arrays) COPIES its columns unless told copy=False: the table must own its data (the caller's
+                # position / number arrays may be re-used buffers)
+                cp = made.get("copy")
+                owns = cp is None or isinstance(cp, VNone) or (isinstance(cp, VBool) and cp.v is True)
+                u.oblige(p, f"clusters.columns.table_owns_its_data[{tag}]", bool(owns), {"copy": repr(cp)}, OWNS_REPLAY)
                 u.oblige(p, f"clusters.columns.each_column_holds_its_own_quantity[{tag}]", bool(ok), {"wrong": str([c for c, a in COLUMNS.items() if not (isinstance(got.get(c), VRef) and got[c].addr == p.ex.cols[a].addr)])}, CLUSTER_REPLAY)
                 ch = p.ex.try_list(got.get("charge")) if got.get("charge") is not None else None
                 sign = -1 if ptype == "e" else 1
